@@ -1,0 +1,26 @@
+//go:build verif
+// +build verif
+
+// Machine-checked contracts for package astcomp (comment-only; read by
+// /verif/govc, see /verif/DESIGN.md §3).  This file declares nothing.
+
+package astcomp
+
+// Numeric for (property C16): the three hidden control registers handed to the
+// prepare/advance instructions are private registers obtained from
+// GetFreeRegister (never a register that holds a user variable), the same three
+// registers are used by both instructions, and the loop variable the body sees
+// is a separate private register - so assignments in the body to the loop
+// variable, or to a variable used as start, limit or step, cannot disturb the
+// iteration.
+//@ func (*compiler).ProcessForStat
+//@   prop C16
+//@   arith bv
+//@   norte
+//@   nocover
+//@   modifies everything()
+//@   exits any
+//@   assert_before_call emitInstr#1: typeis($instr, ir.PrepForLoop) && spec.fromGetFreeRegister(asType($instr, ir.PrepForLoop).Start) && spec.fromGetFreeRegister(asType($instr, ir.PrepForLoop).Stop) && spec.fromGetFreeRegister(asType($instr, ir.PrepForLoop).Step)
+//@   assert_before_call emitInstr#1: asType($instr, ir.PrepForLoop).Start == startReg && asType($instr, ir.PrepForLoop).Stop == stopReg && asType($instr, ir.PrepForLoop).Step == stepReg
+//@   assert_before_call emitInstr#2: typeis($instr, ir.AdvForLoop) && asType($instr, ir.AdvForLoop).Start == startReg && asType($instr, ir.AdvForLoop).Stop == stopReg && asType($instr, ir.AdvForLoop).Step == stepReg
+//@   assert_before_call DeclareLocal#1: spec.fromGetFreeRegister($reg)
